@@ -31,7 +31,8 @@ theorem C16_chain_composes (O : Oracles) (root : Root) (s : SSchema) (v : GoVal)
     (hA : LeafAgree O s.base.format (s.depth + 1) s v) :
     validate O root s v = (specValid O s v, false) := validate_eq_spec O root s v hA
 
-/-- **C16 on the deviation-free fragment** (strings, booleans, signed integers with integral bounds within int64, arrays
+/-- **C16 on the deviation-free fragment** (strings, booleans, signed and unsigned integers with integral bounds within int64,
+    floats under exact float oracles — with a declared `integer` type: integral values and bounds within int64 —, arrays
     of these nested to any depth, no `format`, enum members of the value's own kind): parameter, header and items
     validators accept exactly what the simple-schema specification accepts, and do not panic. Outside this fragment lie
     exactly the listed deviations (C13 fractional bounds / unsigned and float carriers, C14 enum conversions and
@@ -48,7 +49,7 @@ def sNested : SSchema :=
                    enum := [.num 2, .num 4, .num 11] } false false none))))
 def vNested : GoVal := .slice "interface" false [.slice "interface" false [.int 32 2, .int 64 4], .slice "interface" false []]
 
-example : Frag Odate0 (sNested.depth + 1) sNested vNested := by
+example (O : Oracles) : Frag O (sNested.depth + 1) sNested vNested := by
   simp only [sNested, vNested, SSchema.depth, Frag]
   refine ⟨by simp, by simp, by simp, ?_⟩
   intro x hx _
@@ -64,6 +65,18 @@ example : Frag Odate0 (sNested.depth + 1) sNested vNested := by
     · exact ⟨by simp, by decide, hb10, hb0, hb2, by simp⟩
     · exact ⟨by simp, by decide, hb10, hb0, hb2, by simp⟩
   · exact ⟨by simp, by simp, by simp, by simp⟩
+
+/-- … and by what a JSON body delivers: float64 carriers against an `integer` parameter with integral bounds -/
+def Oexact : Oracles :=
+  { re := fun _ _ => some false, fmtKnown := fun _ => false, fmt := fun _ _ => false,
+    isIntTol := fun n => n.isInt, mulOfTol := fun n m => (n / m).isInt }
+def sIntParam : SSchema := .mk { types := ["integer"], minimum := some 0, maximum := some 10, multipleOf := some 2 } true false none
+example : Frag Oexact (sIntParam.depth + 1) sIntParam (.float 64 4) := by
+  simp only [sIntParam, SSchema.depth, Frag]
+  have hb0 : IntBound (some (0 : Rat)) := ⟨0, by simp, by decide⟩
+  have hb10 : IntBound (some (10 : Rat)) := ⟨10, by simp, by decide⟩
+  have hb2 : IntBound (some (2 : Rat)) := ⟨2, by simp, by decide⟩
+  refine ⟨by simp, ⟨fun _ => rfl, fun _ _ => rfl⟩, fun _ => ⟨fun _ => by decide, hb10, hb0, hb2⟩⟩
 
 /-! witnesses of the open deviations (known findings) -/
 
